@@ -12,23 +12,23 @@ ADDED = {
     "C01": "caches of compiled right-hand sides are keyed by everything baked into the kernel (key-completeness slice, hv/memo.py). Round 3: two model systems with equal body names in one interpreter each receive the compiled systems of their own mu; the propagation wrapper keeps the 42-vector coherent in every direction. Round 4: the driver protocol and the manifold energy filter (measure and application) re-filed.",
     "C02": "the driver protocol (step = distance to the next node, dense output on the accepted segment), the slots in which tolerances reach _error_scale, and that the accept test's error norm carries the factor h exactly once (found and fixed a doubled |h| in the four DOP853 drivers). Round 4: propagation rules of C10 re-filed (short spans are integrated).",
     "C03": "cache-key completeness of the direction wrapper; cached monodromy/stability entries and recorded slots are dropped when the period changes; _compute_monodromy propagates over exactly (x0, period). Round 3: the direction wrapper is modelled through its own constructor and every getattr(system, name, 1) read in the integrators names an attribute it stores. Round 4: member periods and the period setter re-filed (the span of the monodromy is the orbit's own period).",
-    "C04": "constructors admit all of (0, 1/2]; the bracketed solver exits only on an exact zero or the x-tolerance (CFG rule); L4/L5 linearisation matrix entry by entry; the frequency-selection code interpreted on the exact spectrum at the smallest catalogue ratio (found and fixed merged frequencies at L4/L5). Round 4: in-place loaders adopt the loaded object whole or rebuild services; facade argument binding.",
-    "C05": "start-symmetry / period-multiplier rule from the analytic initial guess (known finding: vertical family), tolerance chain of the crossing integrator. Round 3: the crossing search and the operators' STM run in the configured time direction (fixed a backward correction that 'converged' in 0 iterations); apply_correction on a state 1e-9 away. Round 4: options chain interface -> operators / backend request; the end of the crossing search window is never a hit.",
+    "C04": "constructors admit all of (0, 1/2]; the bracketed solver exits only on an exact zero or the x-tolerance (CFG rule); L4/L5 linearisation matrix entry by entry; the frequency-selection code interpreted on the exact spectrum at the smallest catalogue ratio (found and fixed merged frequencies at L4/L5). Round 4: in-place loaders adopt the loaded object whole or rebuild services; facade argument binding. Round 5: the stability engine hands the options' band to the backend; Routh's constant (fixed).",
+    "C05": "start-symmetry / period-multiplier rule from the analytic initial guess (known finding: vertical family), tolerance chain of the crossing integrator. Round 3: the crossing search and the operators' STM run in the configured time direction (fixed a backward correction that 'converged' in 0 iterations); apply_correction on a state 1e-9 away. Round 4: options chain interface -> operators / backend request; the end of the crossing search window is never a hit. Round 5: members of a continuation carry the period of their own correction (re-filed; known finding: not the seed's correction scheme).",
     "C06": "integer widths of slot numbers and packed indices at the table degree (roles inferred from the values flowing through each cast). Round 4: exponents above the truncation degree; evaluate hands over every block.",
-    "C07": "gamma of the local frame is the equilibrium's distance ratio; caches on the construction path are keyed by point and degree. Round 3: the point facade returns the requested form at the requested degree. Round 4: velocity consistency of the local -> synodic map, rule C07.c(v) (known findings L1, L2: sign pattern (-,-,+), a defect the earlier acceleration-only formulation let pass); solver exits and evaluate re-filed.",
-    "C08": "1/k! series weights with formal blocks at N_max = 7 for both series; the coordinate series are requested the way the pipeline requests them; generating-function slots. Round 4: the restriction never writes into the cached normal form (re-filed).",
-    "C09": "the series requested from the pipeline realise H_cm = H o Phi and invert each other; degree-dependent caches are keyed / invalidated with the degree. Round 3: keys contain every parameter whole; the restriction leaves its input untouched (an earlier vacuous formulation repaired).",
-    "C10": "event time frame, signed time for time-dependent right-hand sides (fixed), exact zero-span test (fixed), cache key of the direction wrapper. Round 3: signed end time through System.propagate and the system service; a direction wrapper never reaches the parametric Hamiltonian kernel. Round 4: zero-span short-circuit on every integrate() (fixed RK45, symplectic).",
+    "C07": "gamma of the local frame is the equilibrium's distance ratio; caches on the construction path are keyed by point and degree. Round 3: the point facade returns the requested form at the requested degree. Round 4: velocity consistency of the local -> synodic map, rule C07.c(v) (known findings L1, L2: sign pattern (-,-,+), a defect the earlier acceleration-only formulation let pass); solver exits and evaluate re-filed. Round 5: one pipeline per degree, nothing pre-filled from another degree.",
+    "C08": "1/k! series weights with formal blocks at N_max = 7 for both series; the coordinate series are requested the way the pipeline requests them; generating-function slots. Round 4: the restriction never writes into the cached normal form (re-filed). Round 5: the facade's generating-function objects keep G_n at its degree (fixed).",
+    "C09": "the series requested from the pipeline realise H_cm = H o Phi and invert each other; degree-dependent caches are keyed / invalidated with the degree. Round 3: keys contain every parameter whole; the restriction leaves its input untouched (an earlier vacuous formulation repaired). Round 5: solver exits re-filed.",
+    "C10": "event time frame, signed time for time-dependent right-hand sides (fixed), exact zero-span test (fixed), cache key of the direction wrapper. Round 3: signed end time through System.propagate and the system service; a direction wrapper never reaches the parametric Hamiltonian kernel. Round 4: zero-span short-circuit on every integrate() (fixed RK45, symplectic). Round 5: time stamps multiplied by the sign of the direction flag (fixed).",
     "C11": "the symplectic event driver carries the extended state; the derivative fed to its interpolant; key completeness of compiled-event caches. Round 4: backward event search shows the event function the signed time (known findings: RK families); event-time frame re-filed.",
-    "C12": "order-preserving selection of real eigenpairs at representative multipliers; option forwarding facade -> service -> kernel. Round 3: the energy filter measures max|C_i-C_0|/|C_0| of the Jacobi constant (exact histories); two manifold services never share one stability pipeline. Round 4: the cleaning step keeps eigen-solver order and pairing.",
-    "C13": "one-parameter secant steps of either sign. Round 3: the default continuation parameter consists of free coordinates of the reversing symmetry the family's correction relies on (fixed Lyapunov, known finding vertical); generate() key contains the options whole. Round 4: component order of the continuation state; width validation (known finding); options chain.",
-    "C14": "iterates fed back on the section; the service generates the requested section for every history of the generator; the direction quantity does not vanish on the section (known findings: p2, p3). Round 4: config -> problem -> request chain; compute() returns the payload of its own key.",
+    "C12": "order-preserving selection of real eigenpairs at representative multipliers; option forwarding facade -> service -> kernel. Round 3: the energy filter measures max|C_i-C_0|/|C_0| of the Jacobi constant (exact histories); two manifold services never share one stability pipeline. Round 4: the cleaning step keeps eigen-solver order and pairing. Round 5: the engine path that really runs hands matrix, delta, tol and system type to the backend.",
+    "C13": "one-parameter secant steps of either sign. Round 3: the default continuation parameter consists of free coordinates of the reversing symmetry the family's correction relies on (fixed Lyapunov, known finding vertical); generate() key contains the options whole. Round 4: component order of the continuation state; width validation (known finding); options chain. Round 5: the real _instantiate is interpreted; members receive the seed's correction configuration (known finding).",
+    "C14": "iterates fed back on the section; the service generates the requested section for every history of the generator; the direction quantity does not vanish on the section (known findings: p2, p3). Round 4: config -> problem -> request chain; compute() returns the payload of its own key. Round 5: exact zeroing of 1e-9 residuals; a backward integration request is rejected (fixed).",
     "C15": "every backend request built by the engine copies every detection setting of the template (serial and per-worker siblings). Round 3: configurations built by their real constructor reach the backend with the configured normal and the interpolation kind as the string the backend tests (fixed: cubic unreachable, normal ignored); affine-in-time data located exactly on non-uniform grids; time-orientation equivariance in cubic mode (fixed a dt > 0 guard).",
     "C16": "gradient blocks stored unchanged; the event driver advances the same carried extended state as the plain driver. Round 3: direction model built by _DirectedSystem's own constructor.",
-    "C17": "right-hand side at special states (a canonical pair or all of Q exactly zero); Jacobian blocks stored unchanged; tolerances per slot; cache keys of compiled right-hand sides. Round 3: the Hamiltonian and the generic kernel of one integrator receive equal tolerances, limits, tables and grid.",
+    "C17": "right-hand side at special states (a canonical pair or all of Q exactly zero); Jacobian blocks stored unchanged; tolerances per slot; cache keys of compiled right-hand sides. Round 3: the Hamiltonian and the generic kernel of one integrator receive equal tolerances, limits, tables and grid. Round 5: event and plain symplectic drivers receive the same options.",
     "C18": "who-may-write rule for the conversion table (fixed a late-registration defect); substitutions return the substituted polynomial unchanged; memoised conversions keyed by form and context. Round 3: triangular (C, C_inv) pair on an exact symplectic instance; conversions never write into their source polynomial. Round 4: registry defaults unchanged by a call; class-based from_state.",
-    "C19": "a cloud separating greedy matching from mutual nearest neighbours; the limit is tested on the reported mismatch itself; cached requests keyed by the options. Round 3: radius, delta-v limit and ballistic tolerance of the call reach the backend request. Round 4: direction of the connection configuration, the configured normal (fixed) and untrimmed clouds reach the extraction / the request.",
-    "C20": "keyed (partial) resets cover every dependent tag; recorded slots are cleared with the cache; sibling rule for attributes other keys contain; reset() overrides write only the cache (decidable part of the save/load clause); key completeness of every hand-rolled cache in the package. Round 3: parameters enter keys whole (no rounding, no field selection); factory reads followed through properties (fixed four configuration setters); setter guards compare exactly; save filter accepts every state slot and no service outside the saved source holds settable state (two known findings). Round 4: create_* never memoises; no `numeric or default` (fixed one); in-place loaders; facade argument binding over the whole facade.",
+    "C19": "a cloud separating greedy matching from mutual nearest neighbours; the limit is tested on the reported mismatch itself; cached requests keyed by the options. Round 3: radius, delta-v limit and ballistic tolerance of the call reach the backend request. Round 4: direction of the connection configuration, the configured normal (fixed) and untrimmed clouds reach the extraction / the request. Round 5: meeting point checked at result level, fallback included (fixed).",
+    "C20": "keyed (partial) resets cover every dependent tag; recorded slots are cleared with the cache; sibling rule for attributes other keys contain; reset() overrides write only the cache (decidable part of the save/load clause); key completeness of every hand-rolled cache in the package. Round 3: parameters enter keys whole (no rounding, no field selection); factory reads followed through properties (fixed four configuration setters); setter guards compare exactly; save filter accepts every state slot and no service outside the saved source holds settable state (two known findings). Round 4: create_* never memoises; no `numeric or default` (fixed one); in-place loaders; facade argument binding over the whole facade. Round 5: __setstate__ hooks leave the parked computed state alone.",
 }
 
 
